@@ -230,7 +230,7 @@ CORE_OPTSETS = ['', 'i', 'n', 'in']
 SWITCH_OPTSETS = ['', 'n', 's', 'is', 'sn', 'isn']
 
 
-def core(ctx, optsets_needed, fields, cross=None, note='', sweep='core', build_matters=False):
+def core(ctx, optsets_needed, fields, cross=None, note='', sweep='core', build_matters=False, cross_fields=None):
     """Shared logic: T-emit on the option sets the property depends on, T-run fields it observes."""
     T = ctx.T()
     sw = S.get_sweep(T, ctx.tier, ctx.seed, SWITCH_OPTSETS if sweep == 'switch' else CORE_OPTSETS, sweep)
@@ -271,7 +271,7 @@ def core(ctx, optsets_needed, fields, cross=None, note='', sweep='core', build_m
         elif fm:
             ctx.add('model', 'T-run/model', 'real parser disagrees with the runtime model on %s for input %r' % (fm, d.get('input')), rep)
     for d in sw.get('cross', []):
-        if cross and d['kind'] == cross and d['opts'] in want and [f for f in d['fields'] if f in fields]:
+        if cross and d['kind'] == cross and d['opts'] in want and [f for f in d['fields'] if f in (cross_fields or fields)]:
             ctx.add('spec', 'T-run/%s' % cross, 'real parser differs between %s on %s for input %r' % (
                 'memoisation on/off' if cross == 'memo' else 'option sets "%s" and "%s"' % (d['opts'], d.get('base', '')), d['fields'], d['input']),
                 {'grammar': d['text'], 'opts': d['opts'], 'entry': d['entry'], 'input': d['input'], 'a': d['a'], 'b': d['b'],
@@ -296,6 +296,16 @@ def core(ctx, optsets_needed, fields, cross=None, note='', sweep='core', build_m
         ctx.coverage['input_distribution'] = prev_dist
     if sweep == 'switch':
         sh = sw.get('switch_hyps', {})
+        # the hypothesis of the -switch theorems must hold on every program the real optimiser produced: where it does not,
+        # the property is no longer shown to hold for that program (reported with no-failing-input-found unless T-run finds one)
+        texts = sw.get('texts', {})
+        for rid, h in sorted(sh.items()):
+            o = rid.rsplit('_', 1)[1]
+            if o not in want:
+                continue
+            if h.get('swOK') is False or (h.get('switchSafe') is False and h.get('base_ok') is not False):
+                ctx.add('model', 'switchSafe', 'the decidable hypothesis of the -switch end-to-end theorem (%s) fails on the optimiser output for program %s' % (
+                    'swOK' if h.get('swOK') is False else h.get('theorem_hyp'), rid), {'program': rid, 'opts': o, 'hyps': h, 'grammar': texts.get(rid)})
         ctx.coverage['switch_sweep'] = {'nil_case_outputs': len(sw.get('nilcase', [])), 'slow_generations_skipped': len(sw.get('slow', [])),
                                         'theorem_hypotheses_switch': st.get('switch_hypotheses'),
                                         'spec_disagreements_on_switchSafe_programs': sum(
@@ -337,11 +347,16 @@ def c06(ctx):
 
 
 def c07(ctx):
-    ctx.proofs(['PegVerif.Props.C07'])
+    ctx.proofs(['PegVerif.Props.C07', 'PegVerif.Props.C07Switch'])
     sw, by = core(ctx, ['n', 'in'], ['v', 'trace'], cross='opts',
                   note='-noast and -noast -inline parsers; verdict compared with the default parser, trace of inline actions with the spec (reach order, last capture).')
     n1 = by.get('n', {}).get('trace_nonempty', 0) + by.get('in', {}).get('trace_nonempty', 0)
-    sw2, by2 = core(ctx, ['sn', 'isn'], ['v', 'trace'], cross='opts', sweep='switch', note='-noast with -switch / -inline -switch.')
+    # with -switch the dispatch does not enter alternatives that cannot match the next symbol, so the inline actions REACHED
+    # differ from those of the plain -noast parser: the trace is compared with the reach-order spec of the rewritten grammar,
+    # and across option sets only the verdict (what the property states)
+    sw2, by2 = core(ctx, ['sn', 'isn'], ['v', 'trace'], cross='opts', sweep='switch', cross_fields=['v'],
+                    note='-noast with -switch / -inline -switch: verdict against the default parser and the semantics of the original grammar; '
+                         'inline-action trace against the reach-order trace of the rewritten grammar.')
     ctx.coverage['distinct_nontrivial'] = n1 + by2.get('sn', {}).get('trace_nonempty', 0) + by2.get('isn', {}).get('trace_nonempty', 0)
 
 
@@ -373,7 +388,7 @@ def errx(ctx):
 
 
 def c02(ctx):
-    ctx.proofs(['PegVerif.Props.C02', 'PegVerif.Props.C02Switch'])
+    ctx.proofs(['PegVerif.Props.C02', 'PegVerif.Props.C02Switch', 'PegVerif.Props.C02InlineSwitch'])
     sw, by = core(ctx, ['i'], ['v', 'toks'], cross='opts', note='-inline against the default parser of the same grammar.')
     n1 = by.get('i', {}).get('ok', 0)
     sw2, by2 = core(ctx, ['s', 'is'], ['v', 'toks'], cross='opts', sweep='switch',
